@@ -205,9 +205,7 @@ package internal
 //@   ghost vari bool = false
 //@   at call Variadic 1 ghost vari = ret
 //@   ensures [C14] an-accepted-function-is-not-variadic: implies(result != nil, !vari)
-//@   at call errf 2 pre assert [C14] rejected-as-variadic-only-if-variadic: vari
-//@   at call errf 3 pre assert [C14] a-context-is-rejected-only-when-it-is-not-the-first-parameter: i != 0 && $ISCTX(ptype)
-//@   at call errf 4 pre assert [C14] an-error-is-rejected-only-when-it-is-not-the-last-result: i != $NRESULTS - 1 && $ISERR(rtype)
+//@   at call errf * pre assert [C14] a-function-is-rejected-only-for-one-of-its-reasons: typeof(pure("invoke go/types.Type.Underlying", typ)) != typeid("*go/types.Signature") || vari || (i != 0 && $ISCTX(ptype)) || (i != $NRESULTS - 1 && $ISERR(rtype))
 //@   ensures [C13] signature-is-the-underlying-type-of-the-expression: implies(result != nil, result.Sig == dataof(pure("invoke go/types.Type.Underlying", pure("(*go/types.Info).TypeOf", c.info, expr))))
 
 //@ func (*flow).addPredicateOutput
@@ -229,7 +227,7 @@ package internal
 //@   at call compileFunction 1 ghost cf = ret
 //@   ghost vari bool = false
 //@   at call Variadic 1 ghost vari = ret
-//@   at call errf 2 pre assert [C14] rejected-as-variadic-only-if-variadic: vari
+//@   at call errf * pre assert [C14] a-predicate-is-rejected-only-for-one-of-its-reasons: typeof(fnType) != typeid("*go/types.Signature") || vari || $TLEN(results) != 1 || !(typeof($VTYPE(results, 0)) == typeid("*go/types.Basic") && pure("(*go/types.Basic).Kind", dataof($VTYPE(results, 0))) == types.Bool)
 //@   ensures [C14] an-accepted-predicate-is-not-variadic: implies(result != nil, !vari)
 //@   ensures [C01,C11] predicate-function-is-a-new-object: implies(result != nil, result.Function != nil && result.Function != t.Function && forall(i, int, implies(0 <= i && i < len(f.Funcs), f.Funcs[i] != result.Function)))
 //@   ensures [C11,C14] an-accepted-predicate-returns-exactly-one-bool: implies(result != nil, $TLEN(pure("(*go/types.Signature).Results", result.Function.Sig)) == 1 && typeof($VTYPE(pure("(*go/types.Signature).Results", result.Function.Sig), 0)) == typeid("*go/types.Basic") && pure("(*go/types.Basic).Kind", dataof($VTYPE(pure("(*go/types.Signature).Results", result.Function.Sig), 0))) == types.Bool)
@@ -336,8 +334,7 @@ package internal
 //@   ghost cf compiledFunc
 //@   at call compileFunction 1 ghost cf = ret
 //@   ensures [C01,C11] task-and-predicate-functions-are-new-distinct-objects: implies(result != nil, result.Function != nil && forall(i, int, implies(0 <= i && i < len(flow.Funcs), flow.Funcs[i] != result.Function)) && implies(result.Predicate != nil, result.Predicate.Function != nil && result.Predicate.Function != result.Function && forall(i, int, implies(0 <= i && i < len(flow.Funcs), flow.Funcs[i] != result.Predicate.Function))))
-//@   at call errf 1 pre assert [C14,C07] missing-invoke-reported-only-for-a-task-without-values-and-without-invoke: len(t.Outputs) == 0 && t.invokeType == nil
-//@   at call errf 2 pre assert [C14,C07] superfluous-invoke-reported-only-for-a-task-with-values-and-invoke: len(t.Outputs) > 0 && t.invokeType != nil
+//@   at call errf * pre assert [C14,C07] invoke-is-demanded-or-refused-only-for-its-reason: (len(t.Outputs) == 0 && t.invokeType == nil) || (len(t.Outputs) > 0 && t.invokeType != nil)
 //@   at call compileInstrumentName 1 pre assert [C18] an-instrument-is-implied-only-under-auto-instrument-for-an-uninstrumented-task-of-an-instrumented-flow: flow.Instrument != nil && c.instrumentAllTasks && t.Instrument == nil
 //@   ensures [C18] auto-instrument-gives-every-task-of-an-instrumented-flow-an-instrument: implies(result != nil && flow.Instrument != nil && c.instrumentAllTasks, result.Instrument != nil)
 //@   ensures [C02,C10,C13] serial-numbers-are-handed-out-once: implies(result != nil, result.Serial == old(c.taskSerial) && c.taskSerial == old(c.taskSerial) + 1)
